@@ -298,6 +298,23 @@ def manyrows(seed, count, tag='MANYROWS'):
         yield case(tag, rows, m, SCHEMES[k % len(SCHEMES)], rng)
 
 
+def longaxis(seed, count, tag='LONG'):
+    """1 030-1 700 members on one axis, 3-5 on the other, rows from a few patterns: beyond any
+    1 024 threshold yet cheap enough for the lattice-level properties."""
+    rng = random.Random(f'{seed}/{tag}')
+    for k in range(count):
+        big, small = rng.randint(1030, 1700), rng.randint(3, 5)
+        pats = [rng.getrandbits(small) for _ in range(rng.randint(3, 5))]
+        rows = [rng.choice(pats) for _ in range(big)]
+        for _ in range(5):
+            rows[rng.randrange(1024, big)] = rng.getrandbits(small)
+        if k % 2 == 0:
+            yield case(tag + '-tall', rows, small, SCHEMES[k % 2])
+        else:
+            cols = [sum(((rows[i] >> j) & 1) << i for i in range(big)) for j in range(small)]
+            yield case(tag + '-wide', cols, big, SCHEMES[k % 2])
+
+
 def huge(seed, count, tag='HUGE'):
     """Thousands of members on one axis (2 900 - 6 500), a handful on the other; rows drawn
     from a few patterns so that the lattice stays tiny.  Reaches bit positions far beyond
@@ -392,6 +409,7 @@ def ctx_stream(tier, seed, *, scale=1.0, with_wide=True, max_rnd=None, with_huge
         if with_wide:
             yield from wide(seed, int(48 * scale))
         yield from manyrows(seed, int(12 * scale))
+        yield from (c for c in longaxis(seed, 2) if with_wide or len(c['properties']) < 64)
         if with_huge:
             yield from huge(seed, 2)
     else:
@@ -406,6 +424,7 @@ def ctx_stream(tier, seed, *, scale=1.0, with_wide=True, max_rnd=None, with_huge
         if with_wide:
             yield from wide(seed, int(1200 * scale))
         yield from manyrows(seed, int(300 * scale))
+        yield from (c for c in longaxis(seed, max(2, int(24 * scale))) if with_wide or len(c['properties']) < 64)
         if with_huge:
             yield from huge(seed, max(2, int(16 * scale)))
 
